@@ -18,8 +18,9 @@ func init() {
 			"(R4) one queueWg.Add(1) before the launch and exactly one Done() in the watcher goroutine after ctx-done/execution-wait; " +
 			"(R5) the schedule handler runs/promotes tasks only when the timer derived from the schedule's front element fired, addToSchedule inserts before the first later element and always wakes the handler after changing the schedule; " +
 			"(R6) removeFromQueues leaves no stale list element: for each of the three element fields every exit has either found the field nil or removed the element from the list it was inserted into (table derived from the insert sites) and cleared the field. " +
+			"(R7) every (re-)submission of an active task with a max delay re-arms its deadline: in prepForQueueing no condition other than activity and maxDelay != 0 decides whether executeAt is set and the task is re-inserted into the schedule (the schedule handler starts an overdue front task directly, so a stale deadline lets a queued task bypass the queue). " +
 			"NOT decided: liveness ('every queued task runs'), timing, order under real interleavings; Task.ctx is deliberately outside the lock rule (the source documents the benign race).",
-		Rules: []ruleFn{c07R1, c07R2, c07R3, c07R4, c07R5, c07R6},
+		Rules: []ruleFn{c07R1, c07R2, c07R3, c07R4, c07R5, c07R6, c07R7},
 	})
 }
 
@@ -590,5 +591,35 @@ func c07R6(c *Ctx, r *Report) {
 		if n == 0 {
 			r.Bad(rule, cons+" / cleared", "the field is never cleared in removeFromQueues")
 		}
+	}
+}
+
+func c07R7(c *Ctx, r *Report) {
+	const rule = "C07-R7"
+	r.SetFloor(rule, 2)
+	fn := c.Func("modules.(*Task).prepForQueueing")
+	if fn == nil {
+		r.Undecided(rule, "modules.(*Task).prepForQueueing", "anchor function missing")
+		return
+	}
+	inactive := callGuard("isActive()==false", false, "modules.Task.isActive")
+	noDelay := append(cmpGuards("maxDelay == 0", func(v ssa.Value) bool { return fieldLoadOf(v, "modules.Task", "maxDelay") }, func(x int64) bool { return x == 0 }, 0))
+	isResched := isCallInstrTo("modules.Task.addToSchedule")
+	isDeadline := func(in ssa.Instruction) bool {
+		st, ok := in.(*ssa.Store)
+		if !ok {
+			return false
+		}
+		fr, ok := fieldOfAddr(st.Addr)
+		return ok && fr.Owner == "modules.Task" && fr.Name == "executeAt"
+	}
+	gs := append([]Guard{inactive}, noDelay...)
+	for _, step := range []struct {
+		name string
+		pred func(ssa.Instruction) bool
+	}{{"deadline (executeAt) set", isDeadline}, {"re-inserted into the schedule", isResched}} {
+		p := ReachFromAvoiding(fn, nil, isExit, gs, step.pred)
+		r.Check(p == nil, rule, "modules.(*Task).prepForQueueing / "+step.name+" for every active task with a max delay",
+			"every exit has found the task inactive, maxDelay == 0, or has performed the step", "an active task with a max delay can be queued without this step (another condition decides): its old deadline stays in the schedule and the schedule handler runs it directly, past the queue", c.pathString(p)...)
 	}
 }
